@@ -152,6 +152,7 @@ def classify(res):
     canary = "canary_" + unit
     failed, undecided = [], []
     canary_failed = False
+    modes = {f["name"].split("::")[-1]: f.get("mode") for f in res.get("functions", [])}
     for e in res["errors"]:
         fn = e.get("fn")
         msg = e["msg"]
@@ -161,12 +162,19 @@ def classify(res):
         if any(u in msg for u in UNDECIDED_MSGS):
             undecided.append({"fn": fn, "msg": msg})
         elif any(v in msg for v in VIOLATION_MSGS):
-            failed.append({"fn": fn, "msg": msg, "line": e.get("line"), "origin": e.get("origin")})
+            # a hand-written proof fn (lemma) contains no text of /repo: its failure is solver/framework instability,
+            # never a property violation -> undecided.  Extracted functions and exec theorems over them are violations.
+            org = e.get("origin") or ""
+            mode = modes.get(fn)
+            if mode == "proof" and org.startswith(("units/", "specs/")):
+                undecided.append({"fn": fn, "msg": "lemma not discharged (%s)" % msg})
+            else:
+                failed.append({"fn": fn, "msg": msg, "line": e.get("line"), "origin": org})
         else:
             undecided.append({"fn": fn, "msg": msg})
     res["failed"] = failed
     res["undecided_errors"] = undecided
-    hard = [u for u in undecided if not any(x in u["msg"] for x in UNDECIDED_MSGS)]
+    hard = [u for u in undecided if not any(x in u["msg"] for x in UNDECIDED_MSGS) and not u["msg"].startswith("lemma not discharged")]
     if hard:
         res["status"] = "undecided"
         res["reason"] = "verus/rustc rejected the unit: " + "; ".join("%s: %s" % (u["fn"], u["msg"]) for u in hard[:5])
